@@ -1,12 +1,191 @@
 (** C14 — Containers of e-classes stay canonical and keep rules firing.
-    This file only pins statements and prints their assumptions. *)
-From Coq Require Import List Arith PeanoNat.
+    This file only pins statements and prints their assumptions.
+
+    Model: coq/Cont/Env.v (ContainerEnv of core-relations/src/containers/mod.rs as three finite maps,
+    both rebuild strategies, the dirty-id closure, the rebuild loop of egglog-bridge) over the
+    union-find translated from union-find/src/lib.rs. [oracle] is the choice of the surviving
+    value when two keys of a Map collide (left open, as in the property). *)
+From Coq Require Import List Arith PeanoNat Lia.
 Import ListNotations.
-Require Import Verif.Base.Res Verif.Egg.Model Verif.Cont.Env.
+Require Import Verif.Base.Res Verif.gen.UFSeq Verif.UF.Seq Verif.Egg.Model Verif.Egg.RepFacts
+  Verif.Cont.Env Verif.Cont.Facts Verif.Cont.Pass Verif.Cont.Fix.
+
+(** In every reachable state (any interleaving of fresh e-classes, hash-consing insertions,
+    unions of e-classes, rebuilds to fixpoint with ANY choice of strategy per pass):
+    the union-find is well formed; [to_id] is injective both ways (equal contents => one id,
+    one id => one contents); [get_container] (id |-> locator |-> entry) is exactly the inverse of
+    [to_id]; val_index lists every live container under every value it mentions; and every live
+    container id is a root of the union-find. *)
+Theorem c14_env_inv : forall oracle s, Reach oracle s ->
+  let e := cenv s in
+  Inv (cuf s)
+  /\ (forall c v1 v2, In (c, v1) (to_id e) -> In (c, v2) (to_id e) -> v1 = v2)
+  /\ (forall c1 c2 v, In (c1, v) (to_id e) -> In (c2, v) (to_id e) -> c1 = c2)
+  /\ (forall v c, get_container e v = Some c <-> In (c, v) (to_id e))
+  /\ (forall c v x, In (c, v) (to_id e) -> In x (iter c) -> In v (idx_get (vidx e) x))
+  /\ (forall c v, In (c, v) (to_id e) -> rep (cuf s) v = v /\ v < length (cuf s)).
+Proof.
+  intros oracle s R. apply Reach_Good in R. destruct R as [HI I Rl Pd]. cbv zeta.
+  split; [exact HI|].
+  split; [intros c v1 v2; apply NoDup_fst_fun; apply (inv_keys _ I)|].
+  split; [intros c1 c2 v; apply NoDup_snd_fun; apply (inv_ids _ I)|].
+  split; [intros v c; apply get_container_spec; exact I|].
+  split; [apply (inv_idx _ I)|].
+  intros c v H. apply Rl. apply in_live. eauto.
+Qed.
+Print Assumptions c14_env_inv.
+
+(** The rebuild loop started in a reachable state with the fuel the model states terminates
+    normally, whatever strategy each pass takes. *)
+Theorem c14_rebuild_terminates : forall oracle s strat dacc, Reach oracle s ->
+  exists s' d, rebuild_loop oracle (rebuild_fuel s) strat s dacc = Ok (s', d).
+Proof.
+  intros oracle s strat dacc R.
+  destruct (loop_spec oracle (rebuild_fuel s) strat s dacc (Reach_Good _ _ R) (rebuild_fuel_enough s))
+    as (s' & d & E & _).
+  eauto.
+Qed.
+Print Assumptions c14_rebuild_terminates.
+
+(** After the loop every stored value that the rebuilder looks at is canonical w.r.t. the final
+    union-find, two stored containers whose contents agree after canonicalisation are one
+    container (one id), no displaced id is pending, the final union-find only coarsens the
+    initial one and no container id was invented. *)
+Theorem c14_rebuild_canonical : forall oracle s strat dacc s' d, Reach oracle s ->
+  rebuild_loop oracle (rebuild_fuel s) strat s dacc = Ok (s', d) ->
+  let p' := cuf s' in let e' := cenv s' in
+  (forall c v x, In (c, v) (to_id e') -> In x (rids c) -> rep p' x = x)
+  /\ (forall c1 v1 c2 v2, In (c1, v1) (to_id e') -> In (c2, v2) (to_id e') ->
+        rebuild_contents oracle (rep p') c1 = rebuild_contents oracle (rep p') c2 -> v1 = v2)
+  /\ (forall c v, In (c, v) (to_id e') -> rep p' v = v)
+  /\ pending s' = []
+  /\ coarse (cuf s) p'
+  /\ (forall w, In w (live e') -> In w (live (cenv s))).
+Proof.
+  intros oracle s strat dacc s' d R E. cbv zeta.
+  destruct (loop_spec oracle (rebuild_fuel s) strat s dacc (Reach_Good _ _ R) (rebuild_fuel_enough s))
+    as (s'' & d' & E' & G & C & Hc & _ & Hp & Hs).
+  rewrite E in E'. injection E' as <- <-.
+  assert (K : forall c v, In (c, v) (to_id (cenv s')) -> changed (rep (cuf s')) c = false)
+    by (intros c v H; apply (C c v H)).
+  split.
+  { intros c v x H Hx. apply (proj1 (changed_false _ _) (K c v H)). exact Hx. }
+  split.
+  { intros c1 v1 c2 v2 H1 H2. unfold rebuild_contents. rewrite (K c1 v1 H1), (K c2 v2 H2).
+    intros <-. eapply NoDup_fst_fun; [apply (inv_keys _ (g_env _ G))| |]; eauto. }
+  split.
+  { intros c v H. apply (g_roots _ G). apply in_live. eauto. }
+  auto.
+Qed.
+Print Assumptions c14_rebuild_canonical.
+
+(** One pass of either strategy from a reachable state, run against the union-find [p]: every
+    container is afterwards filed under its contents canonicalised by [p], with an id in the class
+    (after the staged unions) of its old id; hence two containers whose contents are equal modulo
+    the current equalities are the same value: their ids are in one class. (Map: with the key
+    collision choice [oracle]; the statement holds for every choice.) *)
+Theorem c14_equal_containers_merge : forall oracle b s e' us dirty chg, Reach oracle s ->
+  run_pass oracle b s = (e', us, dirty, chg) ->
+  exists p', uf_unions (cuf s) us = Ok p'
+    /\ (forall c v, In (c, v) (to_id (cenv s)) ->
+          exists v', In (rebuild_contents oracle (rep (cuf s)) c, v') (to_id e') /\ rep p' v' = rep p' v)
+    /\ (forall c1 v1 c2 v2, In (c1, v1) (to_id (cenv s)) -> In (c2, v2) (to_id (cenv s)) ->
+          rebuild_contents oracle (rep (cuf s)) c1 = rebuild_contents oracle (rep (cuf s)) c2 ->
+          rep p' v1 = rep p' v2).
+Proof.
+  intros oracle b s e' us dirty chg R E. apply (pass_merges oracle b s e' us dirty chg (Reach_Good _ _ R) E).
+Qed.
+Print Assumptions c14_equal_containers_merge.
+
+(** One pass of either strategy from a reachable state: every container whose contents changed
+    while its id stayed is in the dirty set handed to refresh_rows_for_values, and that set is
+    closed under containment (a container holding a dirty container id is dirty), so every row
+    mentioning a container whose meaning changed in place is re-stamped. *)
+Theorem c14_dirty_complete : forall oracle b s e' us dirty chg, Reach oracle s ->
+  run_pass oracle b s = (e', us, dirty, chg) ->
+  let D := dirty_closure e' dirty in
+  (forall c c' v, In (c, v) (to_id (cenv s)) -> In (c', v) (to_id e') -> c <> c' -> In v D)
+  /\ (forall v d w, In v D -> In (d, w) (to_id e') -> In v (iter d) -> In w D).
+Proof.
+  intros oracle b s e' us dirty chg R E. cbv zeta.
+  destruct (pass_step oracle b s e' us dirty chg (Reach_Good _ _ R) E) as (p' & _ & G' & _ & _ & _ & T & _).
+  destruct (dirty_closure_spec oracle e' dirty (g_env _ G')) as [K1 K2].
+  split; [intros c c' v H1 H2 N; apply K1; eapply T; eauto|exact K2].
+Qed.
+Print Assumptions c14_dirty_complete.
+
+(** Suspect S3 decided: when the pass runs against a union-find in which every live container id
+    is a root — which [c14_env_inv] shows for every reachable state — the first loop of
+    apply_rebuild_nonincremental only takes changed containers out and queues them with
+    [stable_id = true]; the "just the value changed" arm, which re-keys an entry without
+    maintaining val_index, is not reached. *)
+Theorem c14_s3_branch_dead : forall oracle f entries e todo chg,
+  (forall c v, In (c, v) entries -> f v = v) ->
+  scan_full oracle f entries e todo chg =
+    (fold_left take (map snd (filter (chf f) entries)) e,
+     todo ++ map (fun cv => (rebuild_raw oracle f (fst cv), snd cv, true)) (filter (chf f) entries),
+     (chg || existsb (chf f) entries)%bool).
+Proof. exact scan_full_L. Qed.
+Print Assumptions c14_s3_branch_dead.
+
+(** ... and the arm WOULD break the index: run against a rebuilder that displaces a live container
+    id whose contents are unchanged, the pass leaves a live container that val_index does not
+    list under the value it contains. (Not reachable from egglog: container ids are displaced
+    only by collisions inside the pass, which re-key the surviving entry themselves.) *)
+Example c14_s3_branch_breaks_index :
+  let f := fun x => if x =? 5 then 3 else x in
+  let e := mkEnv [(CVec [0], 5)] [(5, CVec [0])] [(0, [5])] in
+  EnvInv e /\
+  let e' := fst (fst (fst (pass_full lww f e))) in
+  In (CVec [0], 3) (to_id e') /\ ~ In 3 (idx_get (vidx e') 0).
+Proof.
+  cbv zeta. split.
+  - constructor; simpl.
+    + repeat constructor; simpl; tauto.
+    + repeat constructor; simpl; tauto.
+    + intros c v [H|[]]. injection H as <- <-. reflexivity.
+    + intros c v x [H|[]]. injection H as <- <-. simpl. intros [<-|[]]. simpl. auto.
+  - vm_compute. split; [auto|]. intros [H|[]]. discriminate.
+Qed.
+
+(** the incremental strategy leaves the locator of a displaced id behind (a benign leak: the lookup
+    through it fails); recorded so that the model is not mistaken for stronger than the code *)
+Example c14_stale_locator :
+  exists s, Reach lww s /\ exists v, find_cont (to_cont (cenv s)) v <> None /\ get_container (cenv s) v = None.
+Proof.
+  set (s0 := mkCS [] empty_env []).
+  set (s1 := mkCS [0] empty_env []).
+  set (s2 := mkCS [0; 1] empty_env []).
+  assert (R2 : Reach lww s2).
+  { change s2 with (mkCS (cuf s1 ++ [length (cuf s1)]) (cenv s1) (pending s1)). apply R_fresh.
+    change s1 with (mkCS (cuf s0 ++ [length (cuf s0)]) (cenv s0) (pending s0)). apply R_fresh. apply R_init. }
+  pose proof (R_insert lww s2 (CVec [0]) R2) as R3.
+  match type of R3 with _ -> Reach _ ?s => set (s3 := s) in * end.
+  assert (R3' : Reach lww s3) by (apply R3; simpl; intros x [<-|[]]; left; reflexivity).
+  pose proof (R_insert lww s3 (CVec [1]) R3') as R4.
+  match type of R4 with _ -> Reach _ ?s => set (s4 := s) in * end.
+  assert (R4' : Reach lww s4) by (apply R4; simpl; intros x [<-|[]]; left; reflexivity).
+  assert (R5 : exists p', uf_union (cuf s4) 0 1 = Ok p') by (vm_compute; eauto).
+  destruct R5 as (p' & Hu).
+  pose proof (R_union lww s4 0 1 p' R4') as R5.
+  assert (R5' : Reach lww (mkCS p' (cenv s4) (pending s4 ++ displaced (cuf s4) p'))).
+  { apply R5.
+    - vm_compute. lia.
+    - vm_compute. lia.
+    - vm_compute. intros [H|[H|[]]]; discriminate.
+    - vm_compute. intros [H|[H|[]]]; discriminate.
+    - exact Hu. }
+  vm_compute in Hu. injection Hu as <-.
+  match type of R5' with Reach _ ?s => set (s5 := s) in * end.
+  destruct (c14_rebuild_terminates lww s5 (fun _ => true) [] R5') as (s6 & d & E).
+  exists s6. split; [eapply R_rebuild; eauto|].
+  vm_compute in E. injection E as <- _.
+  exists 3. vm_compute. split; [discriminate|reflexivity].
+Qed.
 
 (** non-vacuity: a history with nesting, a collapsing set and two vectors becoming equal runs to a
     fixpoint under the full, the incremental and the alternating strategy and produces the
-    recorded (engine) observation *)
+    observation recorded from the engine *)
 Example c14_example :
   check_case [HNew; HNew; HNew; HIns KVec [0; 1]; HIns KVec [0; 0]; HIns KSet [0; 1; 2];
               HIns KVec [3; 4]; HIns KVec [4; 4]; HUnion 1 0; HUnion 2 1;
